@@ -128,7 +128,13 @@ class Slot:
         self.cls = cfg["cls"]
         self.N = cfg["N"]
         self.passes_wanted = passes
-        self.style = style          # every | first | manual
+        # style: every | first | manual, optionally "+for": the executor
+        # drives the schedule the way the class docstring shows, with a
+        # fresh `for` loop (iter()) per adjoint pass, left by `break`
+        self.drive = "for" if style.endswith("+for") else "next"
+        self.it = None
+        style = style.split("+")[0]
+        self.style = style
         self.sched = None
         self.machine = Machine(self.cls, cfg["p"], self.N, costs_of(cfg["p"]),
                                keep_log=keep_log)
@@ -282,7 +288,12 @@ class World:
         self.slot_order.append(s.sid)
         was_final = s.final_emitted or s.stops > 0
         try:
-            a = next(s.sched)
+            if s.drive == "for":
+                if s.it is None:
+                    s.it = iter(s.sched)
+                a = next(s.it)
+            else:
+                a = next(s.sched)
         except StopIteration:
             s.stops += 1
             if was_final:
@@ -344,6 +355,9 @@ class World:
                     f"arrived at {s.N} raised {type(e).__name__}",
                     site="in-action")
         if t[0] == "EndReverse":
+            # `break` out of the documented for loop: the iterator object
+            # obtained from iter() is dropped
+            s.it = None
             s.actions_in_pass = 0
             if s.permitted is not None and m.passes >= s.permitted:
                 s.final_emitted = True
